@@ -49,6 +49,7 @@ type caseIn struct {
 	CloseFirst  []int  `json:"close_first,omitempty"` // ordinals of streams closed before the connection
 	Overlap     []int  `json:"overlap,omitempty"`     // ordinals of streams closed by OverlapN overlapping Close calls (the broker withholds the first close response until all calls were issued)
 	OverlapN    int    `json:"overlap_n,omitempty"`
+	CallFlood   int    `json:"call_flood,omitempty"` // that many DownstreamCall and UpstreamCallAck messages arrive while Close waits behind a pending SendBaseTime (no answer, 300 ms context)
 	Buffered    []int  `json:"buffered,omitempty"`    // ordinals of streams with unflushed data / unacknowledged reads at Close
 	PendingRead bool   `json:"pending_read,omitempty"`
 	PendingCall bool   `json:"pending_call,omitempty"`
@@ -72,6 +73,8 @@ type resultOut struct {
 	CloseReqs     []int    `json:"close_reqs"`
 	CloseReqMax   int      `json:"close_req_max"`
 	OverlapRets   [][]int  `json:"overlap_rets,omitempty"`
+	PendingMeta   int      `json:"pending_meta_ret,omitempty"`
+	GuardMissed   bool     `json:"guard_window_missed,omitempty"`
 	Leaked        int      `json:"leaked"`
 	LeakedWhere   []string `json:"leaked_where,omitempty"`
 	Panic         bool     `json:"panic"`
@@ -398,6 +401,8 @@ func runCase(c *caseIn) (res resultOut) {
 
 	// outage in progress
 	sessBefore := len(cb.Sessions())
+	floodLabel := -1 // a request left pending until its own context ends while Close waits behind it
+	var floodCh chan int
 	switch c.Outage {
 	case "dialok", "dialfail":
 		cb.DialDelay.Store(int64(120 * time.Millisecond))
@@ -422,18 +427,19 @@ func runCase(c *caseIn) (res resultOut) {
 			}
 		}
 	case "guard":
-		// SendMetadata holds wireConnMu while the transport's Write returns slowly (200 ms); meanwhile the link
+		// SendMetadata holds wireConnMu while the transport's Write returns slowly (400 ms); meanwhile the link
 		// dies and keepalive closes the wire connection: run() has returned its error and reconnect() waits for
 		// wireConnMu BEFORE its closed check.  Close arrives in that window.
 		cur := cb.CurrentEstablished()
 		cb.NoAnswer("meta", true)
-		cur.Link.WriteDelay.Store(int64(200 * time.Millisecond))
+		gensBefore := cb.Gens()
+		cur.Link.WriteDelay.Store(int64(400 * time.Millisecond))
 		l := label
 		label++
 		mp := pend{2, -1, make(chan int, 1)}
 		go func() {
 			mp.ch <- guarded(3*time.Second, func() error {
-				ctx, cancel := context.WithTimeout(context.Background(), 800*time.Millisecond)
+				ctx, cancel := context.WithTimeout(context.Background(), 1200*time.Millisecond)
 				defer cancel()
 				return conn.SendBaseTime(ctx, &message.BaseTime{SessionID: "x", Name: fmt.Sprintf("m%d", l), BaseTime: time.Unix(1700000000, 0)})
 			})
@@ -453,9 +459,35 @@ func runCase(c *caseIn) (res resultOut) {
 		cur.Link.WriteDelay.Store(0) // only the metadata Write returns slowly; pings are not delayed
 		cur.Link.Sever(memtr.Loud)
 		time.Sleep(30 * time.Millisecond) // keepalive (10 ms) notices; the metadata Write is still returning
-		pends = append(pends, mp)
-		ev(fmt.Sprintf("EStart %d KMeta", l), fmt.Sprintf("EWake %d", l), "ELinkDown", "EDetect")
-		res.Evs = append(res.Evs, fmt.Sprintf("@fail %d", l), "@loop")
+		if os.Getenv("VERIF_GUARD_MISS") != "" {
+			time.Sleep(500 * time.Millisecond) // self-test of the missed-window path
+		}
+		if cb.Gens() > gensBefore {
+			// The window was missed (this goroutine was descheduled for longer than the slow Write): the
+			// metadata Write has returned, reconnect() has redialled, every stream has resumed and the
+			// request was written again - unanswered - on the new connection.  Close will wait behind it
+			// until the request's own context ends (F31, known) and then close a healthy connection.
+			broker.WaitFor(2*time.Second, func() bool { return time.Since(cb.LastActivity()) > 120*time.Millisecond })
+			ev(fmt.Sprintf("EStart %d KMeta", l), fmt.Sprintf("EWake %d", l), "ELinkDown", "EDetect", fmt.Sprintf("EFail %d", l), "ELoop")
+			for i, s := range streams {
+				if !closedFirst(i) {
+					ev(fmt.Sprintf("EWatch %d", s.label))
+				}
+			}
+			ev("EDial true")
+			for i, s := range streams {
+				if !closedFirst(i) {
+					ev(fmt.Sprintf("ESup %d", s.label), fmt.Sprintf("EResumeResp %d RespOk", s.label))
+				}
+			}
+			ev(fmt.Sprintf("EWake %d", l))
+			floodLabel, floodCh = l, mp.ch
+			res.GuardMissed = true
+		} else {
+			pends = append(pends, mp)
+			ev(fmt.Sprintf("EStart %d KMeta", l), fmt.Sprintf("EWake %d", l), "ELinkDown", "EDetect")
+			res.Evs = append(res.Evs, fmt.Sprintf("@fail %d", l), "@loop")
+		}
 	case "settled":
 		cb.CurrentEstablished().Link.Sever(memtr.Loud)
 		cb.DialDelay.Store(int64(60 * time.Millisecond))
@@ -477,6 +509,43 @@ func runCase(c *caseIn) (res resultOut) {
 				ev(fmt.Sprintf("ESup %d", s.label), fmt.Sprintf("EResumeResp %d RespOk", s.label))
 			}
 		}
+	}
+
+	// ---- calls from other nodes keep arriving while Close waits behind a request in flight
+	if c.CallFlood > 0 && c.Outage == "" {
+		cb.NoAnswer("meta", true)
+		floodLabel = label
+		label++
+		floodCh = make(chan int, 1)
+		from := len(cb.Log())
+		l := floodLabel
+		go func() {
+			floodCh <- guarded(3*time.Second, func() error {
+				ctx, cancel := context.WithTimeout(context.Background(), 300*time.Millisecond)
+				defer cancel()
+				return conn.SendBaseTime(ctx, &message.BaseTime{SessionID: "x", Name: fmt.Sprintf("m%d", l), BaseTime: time.Unix(1700000000, 0)})
+			})
+		}()
+		if !broker.WaitFor(time.Second, func() bool {
+			for _, x := range cb.Log()[from:] {
+				if x.Kind == "meta" {
+					return true
+				}
+			}
+			return false
+		}) {
+			res.Harness = "metadata never reached the broker"
+			return
+		}
+		ev(fmt.Sprintf("EStart %d KMeta", l), fmt.Sprintf("EWake %d", l))
+		nflood := c.CallFlood
+		go func() {
+			time.Sleep(20 * time.Millisecond) // Close has marked the connection closed and waits for wireConnMu
+			for k := 0; k < nflood; k++ {
+				cb.SendToClient(&message.DownstreamCall{CallID: fmt.Sprintf("in%d", k), SourceNodeID: "other", Name: "n", Type: "t", Payload: []byte{1}})
+				cb.SendToClient(&message.UpstreamCallAck{CallID: fmt.Sprintf("ack%d", k), ResultCode: message.ResultCodeSucceeded})
+			}
+		}()
 	}
 
 	// ---- Close
@@ -518,6 +587,15 @@ func runCase(c *caseIn) (res resultOut) {
 	closeReturned := time.Now()
 	sessAtClose := len(cb.Sessions())
 	ev("ECloseCall")
+	if floodLabel >= 0 {
+		// Close waited for wireConnMu until the pending metadata request's own context ended
+		ev(fmt.Sprintf("ECtx %d", floodLabel))
+		select {
+		case res.PendingMeta = <-floodCh:
+		case <-time.After(3 * time.Second):
+			res.PendingMeta = 7
+		}
+	}
 	if c.Outage == "dialfail" || c.Outage == "dialok" {
 		for _, s := range cb.Sessions()[sessBefore:sessAtClose] {
 			if cb.GenOf(s.Idx) < 0 {
@@ -890,6 +968,8 @@ func genRandom(r *rng.R) *caseIn {
 	if c.Outage != "" {
 		c.Buffered = nil
 		c.SlowWriteUs = 0
+	} else if r.Chance(1, 6) {
+		c.CallFlood = 9 + r.Intn(12)
 	}
 	c.FullMatrix = r.Chance(1, 6)
 	return c
@@ -942,6 +1022,7 @@ func main() {
 				add(&caseIn{Ups: sh[0], Downs: sh[1], Closes: 1, Overlap: []int{0}, OverlapN: 2}, "overlapping-stream-close")
 				add(&caseIn{Ups: sh[0], Downs: sh[1], Closes: 2, Overlap: []int{0, 1, 2, 3}, OverlapN: 3, Buffered: []int{0, 1}}, "overlapping-stream-close")
 				add(&caseIn{Ups: sh[0], Downs: sh[1], Closes: 1, Buffered: []int{0, 1, 2, 3}}, "buffered")
+				add(&caseIn{Ups: sh[0], Downs: sh[1], Closes: 1 + sh[1]%2, Concurrent: sh[0] > 1, CallFlood: 9 + 3*(sh[0]+sh[1])}, "call-flood-during-close")
 				add(&caseIn{Ups: sh[0], Downs: sh[1], Closes: 2, Buffered: []int{0, 1, 2, 3}, SlowWriteUs: 3000}, "buffered-slow-write")
 				add(&caseIn{Ups: sh[0], Downs: sh[1], Closes: 1, PendingRead: true, PendingCall: true}, "pending")
 				add(&caseIn{Ups: sh[0], Downs: sh[1], Closes: 1, Outage: "settled"}, "after-outage")
@@ -951,6 +1032,8 @@ func main() {
 			add(&caseIn{Ups: sh[0], Downs: sh[1], Closes: 1, Outage: "guard"}, "close-before-reconnect-guard")
 			add(&caseIn{Ups: sh[0], Downs: sh[1], Closes: 1, PendingCall: true}, "pending")
 		}
+		add(&caseIn{Closes: 1, CallFlood: 9}, "call-flood-during-close")
+		add(&caseIn{Closes: 2, CallFlood: 20}, "call-flood-during-close")
 		add(&caseIn{Closes: 1, FullMatrix: true}, "full-matrix")
 		add(&caseIn{Ups: 1, Downs: 1, Closes: 2, FullMatrix: true}, "full-matrix")
 		add(&caseIn{Ups: 1, Downs: 1, Closes: 2, Concurrent: true, Outage: "dialok"}, "close-while-dialling")
@@ -993,11 +1076,11 @@ func main() {
 	}
 	for i, j := range jobs {
 		res := results[i]
-		if res.Harness != "" {
-			fmt.Fprintln(os.Stderr, "harness:", res.Harness, "case", i)
-			os.Exit(3)
-		}
 		direct := ""
+		if res.Harness != "" {
+			// never give up on an unexpected behaviour of the library: it is a direct violation of this case
+			direct = "the history could not be driven to its Close: " + res.Harness
+		}
 		var sigs []string
 		if res.Panic {
 			res.Evs = crashEvs(j.c)
@@ -1029,6 +1112,9 @@ func main() {
 		for _, x := range res.CloseReqs {
 			crq = append(crq, fmt.Sprint(x))
 		}
+		if res.PendingMeta == 7 || res.PendingMeta == 8 {
+			direct = fmt.Sprintf("the pending SendBaseTime did not return after Close (class %d)", res.PendingMeta)
+		}
 		for _, rs := range res.OverlapRets {
 			for _, x := range rs {
 				if x == 7 || x == 8 {
@@ -1044,6 +1130,9 @@ func main() {
 		w.Count(fmt.Sprintf("closes:%d/concurrent:%v", j.c.Closes, j.c.Concurrent))
 		if j.c.Outage != "" {
 			w.Count("outage:" + j.c.Outage)
+			if res.GuardMissed {
+				w.Count("guard-window-missed")
+			}
 		}
 	}
 	rule := "systematic: stream shapes {0, 1 up, 1 down, 1+1, 2+2} x {1, 2, 3 Close calls, sequential and concurrent} x {plain, stream closed first, unflushed data / unacknowledged reads (also with a 3 ms slow-return transport Write), pending read and call, outage survived, Close while the redial fails, Close while the redial succeeds}, plus random combinations; every case ends with the after-close API matrix, the wire log after Disconnect, event counts and a goroutine census. non-trivial = at least one stream and one of {stream closed first, buffered data, pending operation, outage, repeated Close}; distinct = distinct Coq case terms"
